@@ -127,31 +127,33 @@ type Env struct {
 	AnyF interface{} // holds a float64
 
 	// function-valued fields; all log their calls
-	FnI    func(int) int
-	FnII   func(int, int) int
-	FnF    func(float64) float64
-	FnS    func(string) string
-	FnB    func(bool) bool
-	FnU8   func(uint8) int
-	FnI64  func(int64) int64
-	FnF32  func(float32) float64
-	FnInts func([]int) int
-	FnItem func(Item) int
-	FnAny  func(interface{}) interface{}
-	FnVar  func(...int) int
-	Fast   func(...interface{}) interface{}
-	MkInts func(int) []int
-	MkItem func(int) *Item
-	Div    func(int, int) int // panics for a zero divisor
-	EqAny  func(a, b interface{}) interface{}
-	FnEnv  func(int) int                    // depends on the environment it belongs to (adds B)
-	StrEq  func(a, b fmt.Stringer) bool     // parameters of a non-empty interface type
-	MkBox  func(int) Box                    // a struct value that cannot be a map key
-	FnAnys func([]interface{}) int          // takes what an array literal is typed as
-	Tuple  func(...interface{}) interface{} // returns (and so retains) its own argument slice
-	FnPIt  func(*Item) int                  // pointer parameter: accepts nil
-	FnCel  func(Celsius) float64            // parameter of a type defined from float64
-	FnLvl  func(Level) int                  // parameter of a type defined from int
+	FnI     func(int) int
+	FnII    func(int, int) int
+	FnF     func(float64) float64
+	FnS     func(string) string
+	FnB     func(bool) bool
+	FnU8    func(uint8) int
+	FnI64   func(int64) int64
+	FnF32   func(float32) float64
+	FnInts  func([]int) int
+	FnItem  func(Item) int
+	FnAny   func(interface{}) interface{}
+	FnVar   func(...int) int
+	Fast    func(...interface{}) interface{}
+	MkInts  func(int) []int
+	MkItem  func(int) *Item
+	Div     func(int, int) int // panics for a zero divisor
+	EqAny   func(a, b interface{}) interface{}
+	FnEnv   func(int) int                    // depends on the environment it belongs to (adds B)
+	StrEq   func(a, b fmt.Stringer) bool     // parameters of a non-empty interface type
+	MkBox   func(int) Box                    // a struct value that cannot be a map key
+	FnAnys  func([]interface{}) int          // takes what an array literal is typed as
+	Tuple   func(...interface{}) interface{} // returns (and so retains) its own argument slice
+	FnPIt   func(*Item) int                  // pointer parameter: accepts nil
+	FnCel   func(Celsius) float64            // parameter of a type defined from float64
+	FnI8    func(int8) int8                  // a narrow parameter: literals in its argument are retyped to int8
+	RevInts func([]int) []int                // reverses its argument in place (like sort.Ints) and returns it
+	FnLvl   func(Level) int                  // parameter of a type defined from int
 
 	log *Log
 }
@@ -252,6 +254,14 @@ func New(l *Log) *Env {
 	e.Arr3, e.ArrS = [3]int{7, 8, 9}, [2]string{"p", "q"}
 	e.MkBox = func(n int) Box { l.add("MkBox", n); return Box{Xs: []int{n, n + 1}, N: n, Any: []int{n}} }
 	e.FnAnys = func(xs []interface{}) int { l.add("FnAnys", xs); return len(xs) }
+	e.RevInts = func(xs []int) []int {
+		l.add("RevInts", fmt.Sprint(xs))
+		for i, j := 0, len(xs)-1; i < j; i, j = i+1, j-1 {
+			xs[i], xs[j] = xs[j], xs[i]
+		}
+		return xs
+	}
+	e.FnI8 = func(n int8) int8 { l.add("FnI8", n); return n }
 	e.FnCel = func(c Celsius) float64 { l.add("FnCel", float64(c)); return float64(c) * 2 }
 	e.FnLvl = func(v Level) int { l.add("FnLvl", int(v)); return int(v) + 1 }
 	e.FnPIt = func(it *Item) int {
